@@ -19,6 +19,9 @@ package band
 //@ ensures forall i Int, j Int :: 0 <= i && i < j && j < len(result) ==> result[i] != result[j]
 //@ ensures exists a Int, b Int, c Int :: 0 <= a && a < b && b < c && c < len(result) && result[a] == "oracle" && result[b] == "tss" && result[c] == "bandtss"
 //@ ensures exists a Int, b Int :: 0 <= a && a < b && b < len(result) && result[a] == "feeds" && result[b] == "tunnel"
+// C06 / C09: the staking end-blocker (this block's bonding, unbonding and jailing) runs before the modules that weigh
+// validators by the bonded set: the feeds quorum and the oracle's validator sampling see the set as of this block
+//@ ensures exists a Int, b Int, c Int :: 0 <= a && a < b && a < c && b < len(result) && c < len(result) && result[a] == "staking" && result[b] == "oracle" && result[c] == "feeds"
 
 // C16 / C17 / C13: the module accounts that hold users' coins (restake stakes, tunnel deposits and fees, bandtss fees) are
 // fully backed by the modules' own records only because nobody can pay into them from outside: every module account
